@@ -363,7 +363,7 @@ theorem disposeNode_dead_after {fuel : Nat} {r r' : Root} {id : Id}
 /-- disposing a dead id does nothing and cannot fail -/
 theorem dispose_dead (fuel : Nat) (r : Root) (id : Id) (h : r.get? id = none) :
     disposeNode (fuel + 2) r id = .ok r := by
-  simp [disposeNode, disposeChildren, h, removeNode]
+  simp [disposeNode, disposeChildren, unsubscribe, h, removeNode]
 
 /-- **disposing twice equals disposing once** — for every arena and arbitrary cleanup closures -/
 theorem dispose_idempotent {fuel fuel' : Nat} {r r' : Root} {id : Id}
